@@ -73,6 +73,18 @@ Example C07_return_examples :
   /\ retype_header (s2l "def f(a) -> int:  # why") (Some (s2l "int")) None = Some (s2l "def f(a):").
 Proof. repeat split; vm_compute; reflexivity. Qed.
 
+(* Which CST node an AST definition is written back to (find_cst_at_ast): the FIRST node whose line window contains the
+   definition's line and whose kind and name agree; when there is none, no node satisfies the three conditions. *)
+Theorem C07_find_cst_first_match : forall l lineno kind name k,
+  find_cst l lineno kind name = Some k ->
+  exists c, nth_error l k = Some c /\ cst_matches lineno kind name c = true
+            /\ forall j' c', (j' < k)%nat -> nth_error l j' = Some c' -> cst_matches lineno kind name c' = false.
+Proof. exact find_cst_first_match. Qed.
+Print Assumptions C07_find_cst_first_match.
+Theorem C07_find_cst_none : forall l lineno kind name,
+  find_cst l lineno kind name = None -> forall c, In c l -> cst_matches lineno kind name c = false.
+Proof. exact find_cst_none. Qed.
+
 (* Failure atomicity.  doctrans_order (Gen/DoctransOrder.v) is the list of calls of cdd/compound/doctrans.py:doctrans
    in evaluation order, regenerated from the source on every run.  Whichever package call raises, no open-for-write
    has been executed before it: the file on disk is still the original. *)
